@@ -63,6 +63,10 @@ func (c *Conversation) calcDHSharedSecret() *big.Int {
 }
 
 func (c *Conversation) generateEncryptedSignature(key *akeKeys) ([]byte, error) {
+	if c.ourCurrentKey == nil {
+		return nil, newOtrError("no long-term key available to sign the key exchange")
+	}
+
 	verifyData := appendAll(c.ake.ourPublicValue, c.ake.theirPublicValue, c.ourCurrentKey.PublicKey(), c.ake.keys.ourKeyID)
 
 	mb := sumHMAC(key.m1, verifyData, c.version)
